@@ -14,6 +14,7 @@
    uniqueness bookkeeping); it is decided by the oracle on every explored history. *)
 From Coq Require Import List Bool Ascii Arith NArith.
 From TxVerif Require Import Lib.Bytes Spec.Ctl Model.CtlProto Proofs.CtlInv.
+From TxVerif Require Import Spec.CtlOracle Proofs.CtlRefine Proofs.CtlRefine3.
 Import ListNotations.
 
 Theorem C03_loss_clears_everything : forall s,
@@ -45,6 +46,22 @@ Theorem C03_no_write_after_loss : forall lbehs s ops,
   idle_lost s -> forallb app_op ops = true -> no_wrote (concat (run lbehs s ops)) = true.
 Proof. exact nothing_written_after_loss. Qed.
 Print Assumptions C03_no_write_after_loss.
+
+(* L3 refinement (shared by C01, C02, C03): on EVERY history -- any interleaving of submissions
+   (plain, per-line-callback, with callbacks that submit / add / remove listeners), listener changes,
+   disconnect-notification requests, a connection loss, and chunks that each carry one whole
+   well-formed item (reply or event, any wire form) -- that the reference machine of
+   Spec/CtlOracle.v does not flag (causal, nothing after the loss, listeners removed only while
+   registered) and on which no exception escapes the model, the model's per-operation trace IS the
+   reference trace.  The reference machine is the oracle the check evaluates, so on these
+   histories the oracle accepts the model by construction.  Arbitrary chunkings reduce to this by
+   C01_protocol_segmentation_independent / the framing theorems. *)
+Theorem C03_model_is_reference : forall lbehs items ops tr,
+  aligned items ops -> a_good lbehs (a_init items) ops ->
+  run_ok lbehs init ops = Some tr ->
+  run lbehs init ops = fst (a_run lbehs (a_init items) ops).
+Proof. exact model_is_reference. Qed.
+Print Assumptions C03_model_is_reference.
 
 (* non-vacuity: two commands outstanding and one observer, then the loss, then a late submit *)
 Example C03_nonvacuous :
